@@ -378,6 +378,10 @@ func c08restore(m map[string]string) string {
 	name := c08name(nonce, 0)
 	a1 := c08mkMsg(name, 1, dns.RcodeSuccess, false, []c08rr{{typ: dns.TypeA, ttl: t1}}, nil, nil)
 	a2 := c08mkMsg(name, 2, dns.RcodeSuccess, false, []c08rr{{typ: dns.TypeA, ttl: t2}}, nil, nil)
+	if m["nodata"] == "1" { // the refresh says NOERROR without answers (SOA in the authority section): also a replacement
+		dnsmsg.ReleaseMsg(a2)
+		a2 = c08mkMsg(name, 2, dns.RcodeSuccess, false, nil, []c08rr{{typ: dns.TypeSOA, ttl: t2}}, nil)
+	}
 	defer func() { dnsmsg.ReleaseMsg(a1); dnsmsg.ReleaseMsg(a2); dnsmsg.ReleaseQuestion(q) }()
 	r.CacheStore(q, c08remote.Addr(), a1)
 	time.Sleep(1200 * time.Millisecond)
@@ -391,6 +395,12 @@ func c08restore(m map[string]string) string {
 	ttl := uint32(0)
 	if len(g.Answers) == 1 {
 		ttl = g.Answers[0].Hdr().TTL
+	}
+	if m["nodata"] == "1" {
+		if len(g.Answers) == 0 && len(g.Authorities) == 1 {
+			return "got=new ## nodata"
+		}
+		return fmt.Sprintf("got=old ## answers=%d", len(g.Answers))
 	}
 	if ttl <= t2 && ttl+2 >= t2 {
 		return fmt.Sprintf("got=new ## ttl=%d", ttl)
@@ -713,6 +723,7 @@ func c08redisGen(r *rand.Rand, thorough bool, emit func(c, cat string)) {
 	for _, c := range []string{"mem=1 redis=0", "mem=1 redis=1", "mem=0 redis=1"} {
 		emit(fmt.Sprintf("op=restore %s t1=%d t2=300", c, 8+r.Intn(8)), "restore-longer")
 		emit(fmt.Sprintf("op=restore %s t1=300 t2=%d", c, 5+r.Intn(8)), "restore-shorter")
+		emit(fmt.Sprintf("op=restore %s t1=%d t2=300 nodata=1", c, 8+r.Intn(8)), "restore-nodata")
 	}
 }
 
